@@ -342,11 +342,59 @@ def r6_5(repo: Repo) -> RuleResult:
     return rr
 
 
-RULES = [r6_1, r6_2, r6_3, r6_4, r6_5]
+SG = "vectorizers/skip_gram_vectorizer.py"
+
+
+def r6_6(repo: Repo) -> RuleResult:
+    """Every (head, tail, weight) entry build_skip_grams returns for a document becomes one COO triple of that
+    document's row.  The list starts with a (0, 0, 0.0) seed entry, but sum_coo_entries has already merged it with the
+    real (0, 0) entries, so no position of the returned list may be skipped."""
+    from ..model import walk_no_nested
+
+    rr = RuleResult("R6.6", "every entry of a document's merged skip-gram list becomes one COO triple (no slice, no filter, no conditional append)", floor=1)
+    f = repo.func(SG, "skip_grams_matrix_coo_data")
+    build = repo.func(SG, "build_skip_grams")
+    names = set()
+    for n in walk_no_nested(f.node):
+        if isinstance(n, ast.Assign) and isinstance(n.value, ast.Call) and build in repo.resolve_call(f, n.value) and isinstance(n.targets[0], ast.Name):
+            names.add(n.targets[0].id)
+    loops = []
+    for n in walk_no_nested(f.node):
+        if isinstance(n, ast.For):
+            it = n.iter
+            if isinstance(it, ast.Call) and norm(it.func) == "enumerate" and it.args:
+                it = it.args[0]
+            direct_call = isinstance(it, ast.Call) and build in repo.resolve_call(f, it)
+            mentions = ({x.id for x in ast.walk(it) if isinstance(x, ast.Name)} & names) or any(
+                isinstance(x, ast.Call) and build in repo.resolve_call(f, x) for x in ast.walk(it))
+            if direct_call or mentions:
+                loops.append((n, it, direct_call))
+    if len(loops) != 1:
+        raise AnalysisError("R6.6: the loop over the skip-gram list of a document not recognised (%d candidates)" % len(loops))
+    lp, it, direct = loops[0]
+    construct = "loop over build_skip_grams(...) of one document"
+    if not (direct or isinstance(it, ast.Name)):
+        rr.bad(f, construct, "the loop iterates `%s`, not the whole list: the entries left out are real merged skip-grams (the seed entry "
+               "(0, 0, 0.0) has been summed with every (token 0, token 0) pair), so their weight is dropped" % norm(it), lp.lineno)
+        return rr
+    appends = [s_ for s_ in lp.body if isinstance(s_, ast.Expr) and isinstance(s_.value, ast.Call) and isinstance(s_.value.func, ast.Attribute)
+               and s_.value.func.attr == "append"]
+    nested = [x for s_ in lp.body for x in ast.walk(s_) if isinstance(x, ast.Call) and isinstance(x.func, ast.Attribute) and x.func.attr == "append"]
+    jumps = [x for s_ in lp.body for x in ast.walk(s_) if isinstance(x, (ast.Continue, ast.Break))]
+    if len(appends) == 3 and len(nested) == 3 and not jumps:
+        rr.ok(f, construct, "whole list iterated; row, column and value appended once per entry, unconditionally", lp.lineno)
+    else:
+        rr.bad(f, construct, "an entry of the list does not always yield exactly one (row, col, value) triple (%d top-level appends, %d in all, %d jumps)"
+               % (len(appends), len(nested), len(jumps)), lp.lineno)
+    return rr
+
+
+RULES = [r6_1, r6_2, r6_3, r6_4, r6_5, r6_6]
+
 CLAIM = (
     "R6.2 the skip-gram decode modulus equals the encode multiplier (symbolic, with the length fact len(window_sizes) = len(frequencies) + 1 derived from both registered window functions); R6.1 a small kinds checker infers, from the fit path, whether each fitted dictionary attribute maps labels to indices or "
     "indices to labels (dict(zip(A, range)), enumerate comprehensions, items() flips, .copy(), returns of the preprocessing "
-    "functions) and requires every other assignment to the same attribute - in particular in NgramVectorizer.__add__ - to have the same kind (and the kind its documented name declares); R6.3 ngrams_of enumerates sequence[i : i + n] for every i with the guard i + n <= len(sequence) (symbolic), subgram lengths 1..n; R6.4 `__add__` mutates neither operand (alias + effect analysis); R6.5 writer/reader agreement on the kind of key (bare label vs tuple) of the n-gram column dictionary and on the condition selecting it."
+    "functions) and requires every other assignment to the same attribute - in particular in NgramVectorizer.__add__ - to have the same kind (and the kind its documented name declares); R6.3 ngrams_of enumerates sequence[i : i + n] for every i with the guard i + n <= len(sequence) (symbolic), subgram lengths 1..n; R6.4 `__add__` mutates neither operand (alias + effect analysis); R6.5 writer/reader agreement on the kind of key (bare label vs tuple) of the n-gram column dictionary and on the condition selecting it; R6.6 every entry of the merged skip-gram list of a document yields exactly one COO triple (whole list iterated, unconditional appends)."
 )
 NOT_DECIDED = (
     "the counts themselves and EdgeList duplicate summation."
